@@ -787,6 +787,9 @@ func TestC09(t *testing.T) {
 			lp.PoolTraceBegin()
 			if f[1] == "dtls" && f[2] != "srvstop" {
 				fmt.Fprintln(w, runDTLS(f[2], f[3], f[4]))
+			} else if strings.HasPrefix(f[3], "opts") {
+				n, _ := strconv.Atoi(strings.TrimPrefix(f[3], "opts"))
+				fmt.Fprintln(w, runManyOpts(f[1], f[2], n, f[4]))
 			} else if f[3] == "stalled" {
 				fmt.Fprintln(w, runStalled(f[2], f[4]))
 			} else if f[3] == "qfull" {
@@ -809,6 +812,25 @@ func TestC09(t *testing.T) {
 				if strings.HasSuffix(ks, "x") && f[1] == "udp" {
 					kx, _ := strconv.Atoi(strings.TrimSuffix(ks, "x"))
 					fmt.Fprintln(w, runServerCtxStop(kx))
+					lp.PoolTraceEnd("c09 " + strings.Join(f[1:], " "))
+					return
+				}
+				if f[1] != "udp" && (strings.HasSuffix(ks, "f") || strings.HasSuffix(ks, "h")) {
+					// transport connections whose Close() releases the connection but reports an error: all (f) / every second (h)
+					kf, _ := strconv.Atoi(strings.TrimRight(ks, "fh"))
+					every := 1
+					if strings.HasSuffix(ks, "h") {
+						every = 2
+					}
+					fmt.Fprintln(w, runServerFaultyClose(f[1], kf, every))
+					lp.PoolTraceEnd("c09 " + strings.Join(f[1:], " "))
+					return
+				}
+				if i := strings.Index(ks, "o"); i > 0 {
+					// one more peer has sent a well-formed message with that many options
+					ko, _ := strconv.Atoi(ks[:i])
+					no, _ := strconv.Atoi(ks[i+1:])
+					fmt.Fprintln(w, runServerStop(f[1], ko, false, false, false, no))
 					lp.PoolTraceEnd("c09 " + strings.Join(f[1:], " "))
 					return
 				}
